@@ -192,7 +192,7 @@ func C11(tier string) {
 		}
 	}
 	if len(st.Channels) > 0 {
-		r.Cap(fmt.Sprintf("the tree uses channel operations (%s ...), which the controlled scheduler does not model: interleaving exploration skipped, free-running -race pass only", st.Channels[0]))
+		r.Cap(fmt.Sprintf("the tree uses channel operations, sync.Cond or sync.Map (%s ...), which the controlled scheduler does not model: interleaving exploration skipped, free-running -race pass only", st.Channels[0]))
 	}
 	var mu sync.Mutex
 	var reports []c11Report
